@@ -145,7 +145,11 @@ func TestC08Recovery(t *testing.T) {
 					t.Skip("slot already has a reading")
 				}
 				var lit string
-				switch rapid.IntRange(0, 5).Draw(t, "readingClass") {
+				switch rapid.IntRange(0, 6).Draw(t, "readingClass") {
+				case 6:
+					// readings whose scaled value sits on the edges of 32 signed bits
+					target := rapid.SampledFrom([]int64{math.MinInt32, math.MinInt32 + 1, math.MaxInt32, math.MaxInt32 - 1, -1, 1 << 30, -(1 << 30)}).Draw(t, "edgeValue")
+					lit = strconv.FormatFloat(float64(target)*d/m, 'f', -1, 64)
 				case 0:
 					lit = rapid.SampledFrom([]string{"0", "12.5", "-23.9"}).Draw(t, "small")
 				case 1:
